@@ -14,14 +14,14 @@ DYN = True
 
 def run(ck):
     nh, nconf = (70, 25) if ck.tier == "quick" else (2000, 600)
-    ck.cov["rule"] = ("histories as in C01 (meshes, bands, displacements, scalings, refine passes, single operations, compaction) with random node momenta and face labels, plus conforming cases (band chosen around the existing edge lengths, regular triangles: a pass must change nothing); non-trivial = passes whose trace is not empty")
+    ck.cov["rule"] = ("histories as in C01 (meshes, bands, displacements, scalings, refine passes, single operations, compaction) with random node momenta and face labels, plus lattice boxes whose squared edge lengths equal l_min^2 or l_max^2 exactly (ties: the comparisons are strict) and conforming cases (band chosen around the existing edge lengths, regular triangles: a pass must change nothing); non-trivial = passes whose trace is not empty")
     ok = ck.proofs()
     if not ok:
         ck.report(dict(log=ck.proof_res["log"][-3000:]), unchecked="Properties_C11.vo", what="proof obligations of C11 no longer check")
     impl = vlib.build_driver("refine")
     model = vlib.ocaml_model()
     rng = random.Random(ck.seed * 5231 + 11)
-    cases = [rc.gen_history(rng, DYN) for _ in range(nh)] + [rc.conforming_case(rng) for _ in range(nconf)]
+    cases = [rc.tie_case(rng) for _ in range(8 if ck.tier == "quick" else 120)] + [rc.gen_history(rng, DYN) for _ in range(nh)] + [rc.conforming_case(rng) for _ in range(nconf)]
     outs, crashes = vlib.run_lines_resilient([impl], [c["line"] for c in cases], timeout=900)
     for bad, info in crashes[:2]:
         ck.report(dict(input=cases[bad]["line"], error=info), oracle="refine_terminates", key="refine:crash",
